@@ -48,6 +48,8 @@ pub struct ParaSpec {
     pub update: fn(value_text: &str, target_text: &str, lossless: bool) -> Result<String, String>,
     /// are the values parsed from the two texts equal?  (PartialEq where the type has it, else equality of re-serialisation)
     pub equal: fn(a: &str, b: &str) -> Result<bool, String>,
+    /// the value arrives in memory, never through text: see mem_generic
+    pub mem: fn(items: &Items) -> Result<(), String>,
 }
 
 pub trait HasItems {
@@ -156,6 +158,48 @@ where
     }
 }
 
+/// A value that never existed as text: the source paragraph is assembled in memory (collected from pairs) on back-end A,
+/// read into the struct, and that struct is converted to a paragraph and back on back-end B - for all four (A, B).  The
+/// statement's "converting a value to a paragraph and back returns an equal value" is compared through the lossy
+/// re-serialisation of both values (which stores strings as they are).  Values are those a file cannot carry unchanged:
+/// blanks around a one-line value, a value that starts with a line break.
+pub fn mem_generic<T>(items: &Items) -> Result<(), String>
+where
+    T: FromDeb822Paragraph<lossy::Paragraph> + ToDeb822Paragraph<lossy::Paragraph> + FromDeb822Paragraph<Paragraph> + ToDeb822Paragraph<Paragraph>,
+{
+    let mut firsts: Vec<Items> = vec![];
+    for a_lossless in [false, true] {
+        let an = if a_lossless { "lossless" } else { "lossy" };
+        let v0: T = if a_lossless {
+            let p: Paragraph = items.iter().cloned().collect();
+            <T as FromDeb822Paragraph<Paragraph>>::from_paragraph(&p).map_err(|e| format!("in-memory {} paragraph {:?} rejected: {}", an, items, e))?
+        } else {
+            let p: lossy::Paragraph = items.iter().cloned().collect();
+            <T as FromDeb822Paragraph<lossy::Paragraph>>::from_paragraph(&p).map_err(|e| format!("in-memory {} paragraph {:?} rejected: {}", an, items, e))?
+        };
+        let w0: lossy::Paragraph = v0.to_paragraph();
+        for b_lossless in [false, true] {
+            let bn = if b_lossless { "lossless" } else { "lossy" };
+            let v1: T = if b_lossless {
+                let q: Paragraph = v0.to_paragraph();
+                <T as FromDeb822Paragraph<Paragraph>>::from_paragraph(&q).map_err(|e| format!("value {:?} (read from an in-memory {} paragraph): its {} paragraph does not read back: {}", w0.all_items(), an, bn, e))?
+            } else {
+                let q: lossy::Paragraph = v0.to_paragraph();
+                <T as FromDeb822Paragraph<lossy::Paragraph>>::from_paragraph(&q).map_err(|e| format!("value {:?} (read from an in-memory {} paragraph): its {} paragraph does not read back: {}", w0.all_items(), an, bn, e))?
+            };
+            let w1: lossy::Paragraph = v1.to_paragraph();
+            if w1 != w0 {
+                return Err(format!("value {:?} (read from an in-memory {} paragraph) -> {} paragraph -> back gives {:?}", w0.all_items(), an, bn, w1.all_items()));
+            }
+        }
+        firsts.push(w0.all_items());
+    }
+    if firsts[0] != firsts[1] {
+        return Err(format!("@backends: in-memory paragraph {:?} reads as {:?} on the lossy and as {:?} on the lossless back-end", items, firsts[0], firsts[1]));
+    }
+    Ok(())
+}
+
 /// equality through re-serialisation (for types without PartialEq)
 pub fn equal_by_items<T>(a: &str, b: &str) -> Result<bool, String>
 where
@@ -185,6 +229,7 @@ macro_rules! para_spec {
             roundtrip: $crate::typed::roundtrip_generic::<$ty>,
             update: $crate::typed::update_generic::<$ty>,
             equal: $crate::typed::equal_by_eq::<$ty>,
+            mem: $crate::typed::mem_generic::<$ty>,
         }
     };
     ($ty:ty, $id:literal, $fields:expr, items) => {
@@ -194,6 +239,7 @@ macro_rules! para_spec {
             roundtrip: $crate::typed::roundtrip_generic::<$ty>,
             update: $crate::typed::update_generic::<$ty>,
             equal: $crate::typed::equal_by_items::<$ty>,
+            mem: $crate::typed::mem_generic::<$ty>,
         }
     };
 }
